@@ -172,7 +172,11 @@ func (e *Engine) afterReset() *Violation {
 		}
 	}
 	if e.listening() {
-		f.InstallListener(e.P.ListenerChaos)
+		if e.P.Listener == "restricted" && e.P.Profile != "C12" {
+			f.InstallRestrictedPrimary(Sub{S: e.P.ListenerS, C: e.P.ListenerC}, e.P.ListenerChaos)
+		} else {
+			f.InstallListener(e.P.ListenerChaos)
+		}
 	}
 	e.Shadows = append(e.Shadows, &Shadow{S: f, Kind: "fresh"})
 	e.St.Probes["fresh-twin-built"]++
